@@ -75,6 +75,21 @@ def full_snap(o):
     return (snap(o), repr(o))
 
 
+def measures(o):
+    """the measures of an object, as far as it has any (part of what a composite must keep when a constructor
+    argument is mutated)"""
+    G = lib()
+    out = []
+    if isinstance(o, (G.Segment, G.ConvexPolygon, G.ConvexPolyhedron)):
+        out.append(round(o.length(), 9))
+    if isinstance(o, (G.ConvexPolygon, G.ConvexPolyhedron)):
+        out.append(round(o.area(), 9))
+    if isinstance(o, G.ConvexPolyhedron):
+        out.append(round(o.volume(), 9))
+        out.append(round(G.volume(o), 9))
+    return out
+
+
 # ---------------------------------------------------------------- executor
 class Entry(object):
     __slots__ = ("kind", "obj", "desc", "deps", "owns", "label")
@@ -216,8 +231,11 @@ class Executor(object):
     # ---- mutation of shared arguments
     def mutate(self, name, a):
         G = lib()
-        owners_before = [(e, full_snap(e.obj)) for e in self.objs if e.owns]
+        owners_before = [(e, (full_snap(e.obj), measures(e.obj))) for e in self.objs if e.owns]
         target = None
+        # every object has been "queried before": whatever an implementation memoises is memoised now
+        for e in self.all_entries():
+            self.guard("hash", lambda: hash(e.obj))
         if name == "mutP_move":
             target = self.P(a[0])
             v = MOVES[a[1] % len(MOVES)]
@@ -260,7 +278,7 @@ class Executor(object):
                 continue
             if target in e.deps:
                 dependants += 1
-            after = full_snap(e.obj)
+            after = (full_snap(e.obj), measures(e.obj))
             if after != before:
                 raise Fail(
                     "mutating a %s changed a %s built from it (%s)" % (target.label, e.kind, e.label) if target in e.deps else "mutating a %s changed an unrelated %s (%s)" % (target.label, e.kind, e.label),
@@ -270,6 +288,13 @@ class Executor(object):
             self.check_entry(e, "after a constructor argument was mutated")
         if dependants:
             self.mutations_after_build += 1
+        # the mutated argument itself answers like a fresh object with the new value (no stale memo)
+        if target.kind in ("P", "V"):
+            fresh = self.fresh(target)
+            if self.guard("==", lambda: target.obj == fresh) is not True:
+                raise Fail("a %s edited in place is not equal to a fresh one with the same coordinates" % target.label, {"model": target.desc}, self.facts)
+            if self.guard("hash", lambda: hash(target.obj)) != self.guard("hash", lambda: hash(fresh)):
+                raise Fail("a %s edited in place hashes unlike a fresh one with the same coordinates" % target.label, {"model": target.desc}, self.facts)
         if target.kind == "G":
             self.check_entry(target, "after it was moved")
 
@@ -493,4 +518,4 @@ Executor.apply = _apply
 
 def strata(tier):
     q = tier == "quick"
-    return [Stratum("pool-history", "machine", machine, 400 if q else 15000)]
+    return [Stratum("pool-history", "machine", machine, 900 if q else 20000)]
